@@ -183,7 +183,7 @@ def run_harness(spec, slot, prop, logdir, playback=False):
     parsed = core.parse_kani(out)
     m = re.search(r"Checking harness (\S+?)\.\.\.", out)
     parsed["harness_path"] = m.group(1) if m else None
-    res = {"spec": spec, "rc": rc, "timed_out": to, "wall_s": round(wall, 1), "parsed": parsed,
+    res = {"spec": spec, "rc": rc, "timed_out": to, "wall_s": round(wall, 1), "parsed": parsed, "raw_head": out[:120],
            "log": log, "cmd": " ".join(cmd), "reused": False, "tree_digest": digest}
     if ckey and parsed.get("verdict") is not None and not to:
         try:
@@ -256,7 +256,7 @@ def select(plan, prop, tier, only=None):
     return hs
 
 
-def check_property(prop, tier, seed, only=None, jobs=0, do_replay=True, write_evidence=True):
+def check_property(prop, tier, seed, only=None, jobs=0, do_replay=True, write_evidence=True, fail_fast=False):
     t0 = time.time()
     plan = load_plan()
     meta = plan.PROPERTIES.get(prop)
@@ -273,6 +273,8 @@ def check_property(prop, tier, seed, only=None, jobs=0, do_replay=True, write_ev
     os.makedirs(logdir, exist_ok=True)
     # seed only permutes scheduling order; verdicts do not depend on it
     order = sorted(hs, key=lambda h: -h.get("est_s", 60))
+    if fail_fast:
+        order = sorted(hs, key=lambda h: h.get("est_s", 60))  # cheapest first: a violation is usually established early
     if seed:
         k = seed % len(order)
         order = order[k:] + order[:k]
@@ -317,6 +319,15 @@ def check_property(prop, tier, seed, only=None, jobs=0, do_replay=True, write_ev
             r["cls"] = classify(spec, prop, r["parsed"], r["timed_out"], r["rc"])
             if r.get("infra"):
                 r["cls"].update(status="infra", reason=r["infra"])
+            if r["rc"] == -9 and "CANCELLED" in (r.get("raw_head") or ""):
+                r["cls"].update(status="cancelled", reason="fail-fast")
+            if fail_fast and r["cls"]["status"] == "fail" and any(not match_known(known, prop, spec["name"], f) for f in r["cls"]["failures"]):
+                # a violation is established for native-twin-free harnesses directly; for playback harnesses the
+                # replay below still decides VIOLATION vs UNREPRODUCED
+                core.CANCEL.set()
+                with cond:
+                    del queue[:]
+                    cond.notify_all()
             with cond:
                 inuse[0] -= spec.get("mem_gb", 12)
                 cond.notify_all()
@@ -333,6 +344,7 @@ def check_property(prop, tier, seed, only=None, jobs=0, do_replay=True, write_ev
         t.start()
     for t in ths:
         t.join()
+    core.CANCEL.clear()  # (fail-fast) native replay below must run normally
 
     violations, known_hits, inconclusive, infra = [], [], [], []
     for r in results:
